@@ -63,14 +63,21 @@ open Scan
 
 theorem parseTE_shape (p p' : P) (h : parseTE p = .ok p') :
     (p.te = [] ∧ p' = p) ∨
-    (∃ v, p.te = [v] ∧ (trim v).map toLower = str "chunked" ∧ p' = { p with te := [], cl := [], chunked := true }) := by
+    (∃ v, p.te = [v] ∧ (trim v).map toLower = str "chunked" ∧ (p.cl = [] ∨ ∃ q, parseCL p = .ok q) ∧
+      p' = { p with te := [], cl := [], chunked := true }) := by
   unfold parseTE at h
   split at h
   · rename_i ht; left; cases h; exact ⟨ht, rfl⟩
   · rename_i v ht
     split at h
     · cases h
-    · rename_i hv; right; cases h; exact ⟨v, ht, by simpa using hv, rfl⟩
+    · rename_i hv
+      right
+      split at h
+      · rename_i hc; cases h; exact ⟨v, ht, by simpa using hv, Or.inl hc, rfl⟩
+      · split at h
+        · cases h
+        · rename_i q hq; cases h; exact ⟨v, ht, by simpa using hv, Or.inr ⟨q, hq⟩, rfl⟩
   · cases h
 
 theorem parseCL_shape (p p' : P) (h : parseCL p = .ok p') :
@@ -150,7 +157,7 @@ theorem byteStep_bodyHeld (g : Cfg) (p : P) (tok : Bytes) (c : UInt8) (p' : P) (
          split at hq
          · cases hq
          · rename_i q1 hq1
-           rcases parseTE_shape _ _ hq1 with ⟨_, e⟩ | ⟨_, _, _, e⟩ <;>
+           rcases parseTE_shape _ _ hq1 with ⟨_, e⟩ | ⟨_, _, _, _, e⟩ <;>
            rcases parseCL_shape _ _ hq with ⟨_, e2⟩ | ⟨_, _, _, _, _, _, _, e2⟩ <;> subst e e2 <;> rfl
        have b := a _ _ h1
        rcases addTrailerKeys_shape _ _ h2 with e | ⟨_, _, e⟩ <;> subst e <;> left <;> simpa using b)
@@ -261,7 +268,7 @@ theorem te_accepted (p p' : P) (h : endOfHeaders p = .ok p') (hte : p.te ≠ [])
   split at h
   · cases h
   · rename_i q hq
-    rcases parseTE_shape _ _ hq with ⟨e, _⟩ | ⟨v, e1, e2, e3⟩
+    rcases parseTE_shape _ _ hq with ⟨e, _⟩ | ⟨v, e1, e2, _, e3⟩
     · exact absurd e hte
     · subst e3
       refine ⟨v, e1, e2, ?_⟩
@@ -302,5 +309,54 @@ theorem bare_lf_in_header (g : Cfg) (p : P) (tok : Bytes)
     (hs : p.st = .headerKeyBefore ∨ p.st = .headerKey ∨ p.st = .headerValueBefore ∨ p.st = .headerValue) :
     byteStep g p tok LF = .err E.invalidCharInHeader.code [] := by
   rcases hs with h | h | h | h <;> simp [byteStep, h, er, LF, SP, CR, show isToken 10 = false by decide]
+
+/-- **Content-Length, also under chunked.** Whatever the Transfer-Encoding, accepted Content-Length fields all carry the
+    same `[+-]?DIGIT+` value: `Transfer-Encoding: chunked` overrides the length but does not excuse garbage. -/
+theorem cl_accepted_any (p p' : P) (v : Bytes) (rest : List Bytes) (h : endOfHeaders p = .ok p')
+    (hcl : p.cl = v :: rest) :
+    clShape (trimRightSpaces v) = true ∧ ∀ w ∈ rest, trimRightSpaces w = trimRightSpaces v := by
+  simp only [endOfHeaders, bind, Except.bind] at h
+  split at h
+  · cases h
+  · rename_i q hq
+    rcases parseTE_shape _ _ hq with ⟨_, e⟩ | ⟨w, _, _, hc, _⟩
+    · subst e
+      rcases parseCL_shape _ _ h with ⟨h2, _⟩ | ⟨w, r, l, h1, h2, h3, _, _⟩
+      · rw [hcl] at h2; cases h2
+      · rw [hcl] at h1; cases h1; exact ⟨parseCLValue_shape _ _ h3, h2⟩
+    · rcases hc with hc | ⟨q', hq'⟩
+      · rw [hcl] at hc; cases hc
+      · rcases parseCL_shape _ _ hq' with ⟨h2, _⟩ | ⟨w, r, l, h1, h2, h3, _, _⟩
+        · rw [hcl] at h2; cases h2
+        · rw [hcl] at h1; cases h1; exact ⟨parseCLValue_shape _ _ h3, h2⟩
+
+/-- **Chunk-size line grammar.** While the size token is being read, a byte that is neither a hex digit nor SP, HTAB,
+    `;`, CR is an error; after the size and before any `;`, a byte other than SP, HTAB, `;`, CR is an error; a bare LF
+    is an error anywhere on the line. So an accepted chunk-size line is `HEXDIG+ (SP|HTAB)* [";" …] CR`. -/
+theorem chunk_line_grammar (g : Cfg) (p : P) (tok : Bytes) (c : UInt8) (hs : p.st = .chunkSize) :
+    (c = LF → byteStep g p tok c = .err E.invalidChunkSize.code []) ∧
+    (p.chunkSize < 0 → isHex c = false → c ≠ SP → c ≠ 9 → c ≠ 59 → c ≠ CR →
+      byteStep g p tok c = .err E.invalidChunkSize.code []) ∧
+    (¬ p.chunkSize < 0 → p.chunkExt = false → c ≠ SP → c ≠ 9 → c ≠ 59 → c ≠ CR →
+      byteStep g p tok c = .err E.invalidChunkSize.code []) := by
+  refine ⟨?_, ?_, ?_⟩
+  · intro h; subst h; simp [byteStep, hs, er, LF]
+  · intro h1 h2 h3 h4 h5 h6
+    by_cases hl : c = LF
+    · subst hl; simp [byteStep, hs, er, LF]
+    · simp [byteStep, hs, er, hl, h1, h2, h3, h4, h5, h6]
+  · intro h1 h2 h3 h4 h5 h6
+    by_cases hl : c = LF
+    · subst hl; simp [byteStep, hs, er, LF]
+    · simp [byteStep, hs, er, hl, h1, h2, h3, h4, h5, h6]
+
+/-- a bare LF is an error in every line-oriented state that is not waiting for it -/
+theorem bare_lf_rejected (g : Cfg) (p : P) (tok : Bytes)
+    (hs : p.st = .statusBefore ∨ p.st = .status ∨ p.st = .chunkSize ∨ p.st = .trValueBefore ∨ p.st = .trValue ∨
+          p.st = .trKeyBefore ∨ p.st = .statusCodeBefore ∨ p.st = .headerKeyBefore ∨ p.st = .headerKey ∨
+          p.st = .headerValueBefore ∨ p.st = .headerValue) :
+    ∃ e, byteStep g p tok LF = .err e [] := by
+  rcases hs with h | h | h | h | h | h | h | h | h | h | h <;>
+    simp [byteStep, h, er, LF, SP, CR, show isToken 10 = false by decide, show isNum 10 = false by decide]
 
 end Http
